@@ -2044,3 +2044,79 @@ func multiDefCall(info *types.Info, fd *ast.FuncDecl, o types.Object) ast.Expr {
 	})
 	return out
 }
+
+// ---- CRASH-10: nothing logs an error in the Normalize pass ----
+//
+// ParserTerm.normalize re-runs the earlier passes on the helper rules it creates and then asserts
+// that no error has been logged. The assertion is sound only if no diagnostic can be produced
+// during the Normalize pass itself (every check belongs to CreateNames/Check, after which Analyze
+// stops): an Errorf under `pass == Normalize` anywhere in internal/ast turns a reportable fault
+// into an assertion failure as soon as a later statement contains `x*`, `x+`, `x?` or @list.
+// (The first version of repair #23 did exactly that and was corrected by fix 2c-"Check pass".)
+func ruleCRASH10(c *Ctx) {
+	const rule = "CRASH-10"
+	p := c.Prog
+	pk := p.Pkg("internal/ast")
+	if pk == nil {
+		c.unres(rule, "internal/ast", "", "package not found")
+		return
+	}
+	info := pk.TypesInfo
+	// the assertion exists?
+	_, nfd := p.FuncDecl("internal/ast", "ParserTerm.normalize")
+	asserts := false
+	if nfd != nil {
+		scope := []ast.Node{nfd}
+		for _, sc := range funcScope(p, pk, nfd, 2) {
+			scope = append(scope, sc.node)
+		}
+		for _, n := range scope {
+			ast.Inspect(n, func(m ast.Node) bool {
+				if call, ok := m.(*ast.CallExpr); ok && isAssertFunc(calleeFunc(info, call)) && strings.Contains(exprString(call), "HasError") {
+					asserts = true
+				}
+				return true
+			})
+		}
+	}
+	if !asserts {
+		c.ok(rule, "ast.ParserTerm.normalize/assert", "", "normalize no longer asserts the absence of logged errors: nothing to protect")
+		return
+	}
+	normalizeConst := lookupConst(p, "internal/ast", "Normalize")
+	n := 0
+	for _, f := range pk.Syntax {
+		if isTestFile(p.Fset, f) {
+			continue
+		}
+		for _, d := range f.Decls {
+			fd, ok := d.(*ast.FuncDecl)
+			if !ok || fd.Body == nil {
+				continue
+			}
+			par := parents(fd)
+			ast.Inspect(fd.Body, func(m ast.Node) bool {
+				call, ok := m.(*ast.CallExpr)
+				if !ok || !isErrLoggerMethod(calleeFunc(info, call)) {
+					return true
+				}
+				n++
+				for _, fct := range pathConds(info, par, call) {
+					l, op, r, ok := cmpFact(fct.e, !fct.neg)
+					if !ok || op != token.EQL {
+						continue
+					}
+					if (normalizeConst != nil && (usesObj(info, l) == types.Object(normalizeConst) || usesObj(info, r) == types.Object(normalizeConst))) {
+						c.bad(rule, funcKey(pk, fd)+"/error-in-normalize-pass", p.Pos(call.Pos()),
+							"a diagnostic is logged under `pass == Normalize`: ParserTerm.normalize asserts that no error has been logged, so the same fault in a specification with a cardinality term (x*, x+, x?, @list) ends in an assertion failure instead of the diagnostic")
+					}
+				}
+				return true
+			})
+		}
+	}
+	c.ok(rule, "internal/ast/diagnostics-before-normalize", "", "%d diagnostic call sites of internal/ast examined: none is conditioned on the Normalize pass, so normalize's no-error assertion cannot be tripped by a reportable fault", n)
+	if n < 20 {
+		c.unres(rule, "internal/ast/diagnostics", "", "only %d ErrLogger call sites found in internal/ast", n)
+	}
+}
